@@ -39,11 +39,15 @@ def parse_opcodes():
     if not m:
         raise ExtractError("opcode.rs: from_u8 not found")
     body = " ".join(m.group(1).split())
-    mm = re.fullmatch(r"if byte <= Self::([A-Za-z0-9]+) as u8 \{ Some\(unsafe \{ std::mem::transmute::<u8, OpCode>\(byte\) \}\) \} else \{ None \}", body)
+    mm = re.fullmatch(r"if byte <= (?:Self::([A-Za-z0-9]+) as u8|([0-9]+)) \{ Some\(unsafe \{ std::mem::transmute::<u8, OpCode>\(byte\) \}\) \} else \{ None \}", body)
     if not mm:
         raise ExtractError("opcode.rs: from_u8 is no longer `if byte <= Self::X as u8 { Some(transmute(byte)) } else { None }` "
                            "(if it now matches on the valid discriminants, KF-C04-3 is repaired: update Model/Verifier.v decode)")
     names = dict(ops)
+    if mm.group(2) is not None:
+        if int(mm.group(2)) > 255:
+            raise ExtractError("opcode.rs: from_u8 bound above 255")
+        return ops, int(mm.group(2)), src
     if mm.group(1) not in names:
         raise ExtractError(f"opcode.rs: from_u8 bound {mm.group(1)} is not a variant")
     return ops, names[mm.group(1)], src
